@@ -56,9 +56,18 @@ Bind(r) ==
     /\ toConv' = [c \in DOMAIN st.toConv |-> S(st.toConv[c])]
     /\ cache' = [c \in DOMAIN st.cache |-> {<<e.id, S(e.v)>> : e \in S(st.cache[c])}]
 
-Say(kind, r, what) ==
-    PrintT("@@J" \o ToJson([kind |-> kind, what |-> what, tr |-> r.tr, sid |-> r.sid, n |-> r.n, a |-> r.ev.a, res |-> r.res]))
+SayI(kind, r, what, info) ==
+    PrintT("@@J" \o ToJson([kind |-> kind, what |-> what, tr |-> r.tr, sid |-> r.sid, n |-> r.n, a |-> r.ev.a, res |-> r.res, info |-> info]))
+Say(kind, r, what) == SayI(kind, r, what, "")
 Chk(cond, r, what) == cond \/ Say("fail", r, what)
+ChkI(cond, r, what, info) == cond \/ SayI("fail", r, what, info)
+\* the definition kinds of a set of tags, as a string in a fixed order (narrow signatures for known findings)
+KindOrder == <<"P", "D", "L", "I", "M", "R", "N", "S", "?">>
+KindsOf(T) ==
+    LET ks == {tags[t].def.k : t \in T}
+        RECURSIVE cat(_)
+        cat(i) == IF i > Len(KindOrder) THEN "" ELSE (IF KindOrder[i] \in ks THEN KindOrder[i] ELSE "") \o cat(i + 1)
+    IN cat(1)
 
 Picks == DOMAIN tags' \cup DOMAIN tags \cup {""}
 
@@ -135,8 +144,10 @@ Props ==
        \* ---- C06
        /\ Chk(DOMAIN truth = DOMAIN tags, r, "C06.truth-undefined")
        /\ DOMAIN truth = DOMAIN tags =>
-            /\ Chk(NeverStaleFor(tags, vis, truth), r, "C06.NeverStale")
-            /\ Chk(\A t \in DOMAIN r.obs.search : S(r.obs.search[t]) = truth[t], r, "C06.SearchRight")
+            /\ ChkI(NeverStaleFor(tags, vis, truth), r, "C06.NeverStale",
+                    KindsOf({t \in DOMAIN tags : \E e \in vis : e[1] \notin tags[t].U /\ ((e[1] \in tags[t].M) # (e[1] \in truth[t]))}))
+            /\ ChkI(\A t \in DOMAIN r.obs.search : S(r.obs.search[t]) = truth[t], r, "C06.SearchRight",
+                    KindsOf({t \in DOMAIN r.obs.search : S(r.obs.search[t]) # truth[t]}))
             /\ Chk(\A s \in DOMAIN r.obs.shown : \A t \in S(r.obs.shown[s]) : t \in DOMAIN truth /\ \E e \in vis : ToString(e[1]) = s /\ e[1] \in truth[t],
                    r, "C06.ShownRight")
             \* cross-check of the harness against the model's own notion of truth (not a verdict)
